@@ -51,6 +51,17 @@ CLAIMED = {
             "For every transition of the stump history search (every deletion subset x addition count, N<=Nmax) the UpdateData returned by Stump.Update is compared field by field "
             "with oracles derived from the reference forest: PrevNumLeaves; ToDestroy = empty roots consumed by the binary carry, in order, post-block coordinates; NewDelPos/Hash = every "
             "pre-block path position of the deleted targets with the post-deletion subtree hash; NewAddPos/Hash = every added leaf and both children of every created node, sorted, duplicate-free.", "6 C11"),
+    "C03": ("inputs", "exhaustive enumeration of (targets, hashes, proof) triples and of edit neighbourhoods of honest proofs against every verifier, vs reference forest",
+            "For every accumulator state with at most Nin leaves ever added (every alive subset) and every verifier (Verify, Pollard.Verify, MapPollard.Verify full/partial x TotalRows x remember, "
+            "VerifyPartialProof) every (targets, hashes, proof) triple over a small closed alphabet (all positions up to 2^(rows+1)+2 plus giant values; zero, every node hash, a dead leaf, a fresh hash) "
+            "with |targets|<=T, |proof|<=P is executed; for larger forests every single edit (thorough: every pair of edits) of every honest proof of up to three leaves. Oracle: accepted with non-zero "
+            "hashes implies every hash sits at its claimed position in the reference forest (in API coordinates, or for a map forest in its allocated-height coordinates). Five genuine soundness defects "
+            "found this way were repaired (fix: commits).", "6 C03"),
+    "C04": ("inputs", "exhaustive enumeration of untrusted inputs (incl. length mismatches, giant targets, synthetic giant stumps) against every entry point with a non-termination watchdog",
+            "The C03 input space extended with mismatched list lengths and run through every entry point including Stump.Update with 0 and 2 additions, plus synthetic stumps with NumLeaves up to 2^64-1 "
+            "and boundary targets up to 2^64-1. Oracle: no panic (recovered and attributed), every call returns (a watchdog re-executes any call without progress for 20 s twice before reporting; "
+            "seven orders of magnitude above a normal call), and a Stump.Update that returns an error leaves NumLeaves and every root unchanged. Polynomial time is observed only as termination on every "
+            "bounded input.", "6 C04"),
 }
 
 NOT_YET = {
@@ -91,6 +102,8 @@ def main():
              "kind_free_text": "explicit-state breadth-first search over operation histories; every transition is executed on the real implementation and compared with a reference model"},
             {"name": "light", "path": "/verif/vmc/mc/light.go", "serves_properties": ["C07", "C08", "C11"],
              "kind_free_text": "explicit-state breadth-first search over light-client histories (Stump.Update, Proof.Update, Proof.Undo on the real code) against the reference model and a full prover"},
+            {"name": "inputs", "path": "/verif/vmc/mc/inputs.go", "serves_properties": ["C03", "C04"],
+             "kind_free_text": "exhaustive enumeration of untrusted input triples over closed alphabets and of complete edit neighbourhoods of honest proofs, executed on the real verifiers; oracle from the reference forest"},
             {"name": "geom", "path": "/verif/vmc/mc/geom.go", "serves_properties": ["C16"],
              "kind_free_text": "exhaustive enumeration of the argument space of the pure position functions (bounded heights exhaustive, boundary grid to 63 rows) against the reference geometry"},
         ],
